@@ -6,7 +6,7 @@ trace must equal the original's trace from the snapshot on (events processed, ex
 configuration, final data). With pending external events in the queue at the snapshot. A state string must be rejected
 by an interpreter for a different document.
 """
-import os, sys, json, collections
+import os, sys, json, collections, random
 from vf import common, chart as C, trace as T, c01lib
 from vf.common import Check
 from vf.checks.c01 import NONTRIVIAL
@@ -184,6 +184,54 @@ def due_part(chk, binary, n):
     if ok < n // 3: chk.inconc('only %d of %d snapshot-while-due runs were comparable' % (ok, n))
 
 
+def final_work(job):
+    """snapshot of a session that has finished (serialize() accepts that state): the resumed session is finished as well - step() says so at
+    once and nothing is entered, exited or completed a second time"""
+    binary, seeds = job
+    jobs = []; meta = {}
+    for sd in seeds:
+        rng = random.Random(sd)
+        dm = ('lua', 'promela', 'null')[sd % 3]; eng = ('large', 'fast')[(sd // 3) % 2]
+        ch, hist = c01lib.make_case(sd, dm)
+        # make sure it ends: a top-level final reached from everywhere on the last event
+        fin = C.St('zfin', 'final', ch.root); ch.root.children.append(fin); fin.onexit.append([('log', 'XZ', None)])
+        for st in ch.root.states():
+            if st.kind != 'final': st.trans.insert(0, C.Tr(st, ['quit'], None, ['zfin'], False, []))
+        ch.reindex()
+        jid = 'fz%d' % sd
+        jobs.append((jid, T.job_text(jid, eng, C.render(ch, dm), hist[:3] + ['quit'], flags=['novars', 'snapfinal'])))
+        meta[jid] = (C.render(ch, dm), hist[:3] + ['quit'], eng, dm)
+    raw = T.run_jobs(binary, jobs)
+    out = []
+    for jid, (xml, hist, eng, dm) in meta.items():
+        r = raw.get(jid, {'lines': [], 'crash': 'no result', 'timeout': False})
+        rec = {'id': jid, 'v': 'skip'}
+        rep = {'xml': xml, 'history': hist, 'engine': eng, 'datamodel': dm}
+        lines = r['lines']
+        if r['crash'] or r['timeout']:
+            rec['v'] = 'bad'; rec['k'] = 'resume-of-finished-session:crash-or-hang'; rep['stderr'] = r.get('stderr'); rec['replay'] = rep
+        elif any(l.startswith('B RESUMED') for l in lines):
+            b = [l[2:] for l in lines if l.startswith('B ')]
+            res = [l for l in b if l.startswith('R ')]
+            acts = [l for l in b if l[:2] in ('MB', 'NB', 'XB', 'TB', 'KB', 'L ', 'E ')]
+            rec['v'] = 'ok'
+            if any(x != 'R -1' for x in res) or acts:
+                rec['v'] = 'bad'; rec['k'] = 'resumed-from-finished-session-is-not-finished'; rep['resumed'] = b[:20]; rec['replay'] = rep
+        out.append(rec)
+    return out
+
+
+def final_part(chk, binary, n):
+    base = chk.seed * 1000000 + 141400
+    ok = 0
+    for out in common.pmap(final_work, [(binary, list(range(base + i, base + min(i + 20, n)))) for i in range(0, n, 20)]):
+        for rec in out:
+            chk.count()
+            if rec['v'] == 'bad': chk.report(rec['k'], rec['replay'], '%s %s' % (rec['id'], rec['k']))
+            elif rec['v'] == 'ok': ok += 1; chk.nontrivial('final:' + rec['id'])
+    chk.add('snapshots_of_finished_sessions', ok)
+
+
 def delayed_part(chk, binary, n):
     rng = chk.rng
     jobs = [(binary, 'dl%d' % i, ('lua', 'promela')[(i // 2) % 2], ('large', 'fast')[(i // 4) % 2], rng.randint(350, 600), rng.randint(700, 900), 1 + i % 2) for i in range(n)]
@@ -225,6 +273,7 @@ def main(tier, replay):
                 chk.sample({'case': rec['id'], 'records_compared_after_resume': rec['compared']})
     delayed_part(chk, binary, 16 if tier == 'quick' else 200)
     due_part(chk, binary, 60 if tier == 'quick' else 1500)
+    final_part(chk, binary, 120 if tier == 'quick' else 3000)
     chk.add('verdicts', dict(verd)); chk.add('records_compared_after_resume', compared)
     chk.rule = ('each round trip = (document, history, engine, stable point k): serialize() at the k-th stable point (all k up to 7, with 0-2 external events still queued), deserialize() into a fresh interpreter for the '
                 'same document, drive both with the same continuation and compare every callback/log record from the first processed event on plus final configuration and data; one extra job per document checks that a '
